@@ -24,7 +24,7 @@ RULE = ("structure: every (number of baths 1-4, depth 0-6) shape (thorough: bath
         "sqrt(2 lambda kT)/gamma in [0.3,1.5]. distinct = (class, baths, depth, rounded parameters); non-trivial iff hsize > 1 (structure), "
         "the state changes by more than 1e-3 (dynamics), the coherence decays by more than 5 % (convergence).")
 ASSUMPTIONS = ["'converges with increasing depth' is restated as: deviation from the analytic solution is non-increasing from depth 1 to D, "
-               "drops by at least 30 % every two levels and is below a calibrated 1.5e-3 at D=6 (1e-3 at D=8); nothing is claimed beyond D",
+               "drops by at least 30 % every two levels and is below a calibrated 1.5e-3 at D=6 (1e-4 at D=8), comparisons stop at the integrator's time-step floor 1e-7; nothing is claimed beyond D",
                "the analytic line-shape function is the high-temperature one (the hierarchy announces that only this limit is used)"]
 MIN_NONTRIVIAL = {"quick": 40, "thorough": 120}
 REQUIRED_CLAUSES = ["index-set", "links", "Gamma", "trace", "hermitian", "closed-system-limit", "converges"]
@@ -261,11 +261,14 @@ def run_case(case, ctx):
         ctx.note("devs", devs)
         ctx.note("ratio", case["ratio"])
         D = case["D"]
-        mono = all(devs[i + 1] <= devs[i] * 1.0 + 1e-12 for i in range(D - 1))
-        fast = all(devs[i + 2] <= 0.7 * devs[i] + 1e-12 for i in range(D - 2))
+        # below FLOOR the deviation is the time-step (Taylor) error of the
+        # integrator, which does not depend on depth
+        FLOOR = 1e-7
+        mono = all(devs[i + 1] <= max(devs[i], FLOOR) for i in range(D - 1))
+        fast = all(devs[i + 2] <= max(0.7 * devs[i], FLOOR) for i in range(D - 2))
         det = {"deviations_by_depth": devs, "sqrt(2 lam kT)/gamma": case["ratio"], "lam_cm": b["reorg"], "tau": b["cortime"], "T": b["T"]}
         ctx.require("converges", mono and fast, dict(det, what="deviation not decreasing with depth"))
-        target = 1.5e-3 if D == 6 else 1e-3
+        target = 1.5e-3 if D == 6 else 1e-4
         ctx.check("converges", devs[-1], target, dict(det, what="deviation at the largest depth"))
         decay = 1.0 - float(numpy.min(numpy.abs(ana))) / 0.5
         ctx.key((cls, N, D, b["reorg"], b["cortime"], b["T"]))
